@@ -584,7 +584,20 @@ def run(prop, tier, seed, repo, jobs):
                     except Exception as ex:   # pragma: no cover
                         nat = [str(ex)]
                 elif decl is None:
-                    confirmed = True     # concrete evaluation of the real function already is the native result
+                    # extension normalisation: the raw spelling and the normalised one must denote the same files for the real binary
+                    try:
+                        tree = {'/p/src': 'dir', '/p/src/a.rs': 'file', '/p/src/b.tar.gz': 'file', '/p/src/c.o': 'file', '/p/src/d.txt': 'file'}
+                        nat, ref = [], []
+                        for bad in (ob.get('detail') or []):
+                            raw, want = bad['input'], bad['expected']
+                            n1 = native_listing([(['/p/src'], raw)], tree, repo)
+                            n2 = native_listing([(['/p/src'], want)], tree, repo)
+                            nat.append({'extensions': raw, 'denoted': n1})
+                            ref.append({'extensions': want, 'denoted': n2})
+                            if n1 != n2:
+                                confirmed = True
+                    except Exception as ex:   # pragma: no cover
+                        nat = [str(ex)]
                 json.dump({'kind': 'listing', 'obligation': ob, 'native_denoted': nat, 'reference': ref, 'confirmed': confirmed}, open(rpath, 'w'), indent=1, default=str)
                 if confirmed:
                     violations.append(rpath)
